@@ -112,7 +112,34 @@ func interfaceComparisonsCannotPanic(c *cx, id string) int {
 					bad = f.Prog.NodeStr(e) + " holds a " + eng.TypeStr(t) + ", which is not comparable: the comparison panics when the other side holds one too"
 				}
 			}
-			c.r.Check(id, f, what, "P: no interface comparison has an operand known to hold a non-comparable dynamic type", pos, bad == "", bad)
+			// two errors of unknown origin: the library's own error types
+			// stanza.Error and stream.Error are structs with maps / slices, so
+			// "the same failure twice" compared with == panics. One side has
+			// to be a sentinel (a package-level variable), nil, or a value of
+			// known comparable type.
+			if bad == "" && isErrorType(info.TypeOf(a)) && isErrorType(info.TypeOf(b)) {
+				arbitrary := func(e ast.Expr) bool {
+					e = ast.Unparen(e)
+					if dyn(e, 0) != nil {
+						return false
+					}
+					switch x := e.(type) {
+					case *ast.Ident:
+						if v, ok := info.Uses[x].(*types.Var); ok && !eng.IsLocal(v) {
+							return false // package-level sentinel
+						}
+					case *ast.SelectorExpr:
+						if v, ok := info.Uses[x.Sel].(*types.Var); ok && !v.IsField() {
+							return false // pkg.Sentinel
+						}
+					}
+					return true
+				}
+				if arbitrary(a) && arbitrary(b) {
+					bad = "both " + f.Prog.NodeStr(a) + " and " + f.Prog.NodeStr(b) + " are errors of unknown dynamic type: when both hold a stanza.Error or stream.Error the comparison panics (use errors.Is)"
+				}
+			}
+			c.r.Check(id, f, what, "P: no interface comparison has an operand known to hold a non-comparable dynamic type, and no two arbitrary errors are compared", pos, bad == "", bad)
 		}
 		f.WalkBody(func(nd ast.Node) bool {
 			switch x := nd.(type) {
@@ -134,4 +161,8 @@ func interfaceComparisonsCannotPanic(c *cx, id string) int {
 		})
 	}
 	return n
+}
+
+func isErrorType(t types.Type) bool {
+	return t != nil && types.Identical(t, types.Universe.Lookup("error").Type())
 }
